@@ -67,7 +67,8 @@ theorem sat_addPort (S : Expr → Prop) (h : Hub) (id : String) (hs : ExprsSat S
   | some _ => exact hs
   | none =>
     intro p hp e he
-    simp only [List.mem_append, List.mem_singleton] at hp
+    simp only [register, List.append_eq, List.mem_append, List.mem_singleton, List.mem_cons, List.not_mem_nil,
+      or_false] at hp
     rcases hp with hp | rfl
     · exact hs p hp e he
     · cases he
